@@ -1021,7 +1021,8 @@ class SamplingMethod(DirectMethod):
                     # if the dynamics contains a parameter
                     # or "... Initialization failed since variables ... are free ..." if the target is a
                     # linear expression containing a Function call
-                    if "arbitrary expression" in str(e) or (not target.is_valid_input() and ("initial value for a parameter" in str(e) or "are free" in str(e))):
+                    # or "... inconsistent numerical values ..." if the propagated state does not depend on any variable
+                    if "arbitrary expression" in str(e) or (not target.is_valid_input() and ("initial value for a parameter" in str(e) or "are free" in str(e) or "inconsistent numerical values" in str(e))):
                         pass
                     else:
                         # Other type of error: 
